@@ -36,7 +36,8 @@ structure RawNode where
   id : Nat
   unsched : Bool
   noFit : Bool
-  cap : List Int
+  cap : List Int      -- capacity used by getNodeThresholds
+  capAvg : List Int   -- capacity used by calcAverageResourceUsagePercent
   usage : List Int
   prodUsage : List Int
 
@@ -72,6 +73,7 @@ def measure (pods : List WirePod) (ms : List WireMetric) (n : WireNode) : RawNod
   let es : List MetricEntry := (ms.filter (·.node = n.id)).map (·.entry)
   { id := n.id, unsched := n.unsched, noFit := n.noFit,
     cap := capacityFor .thresholds n.alloc n.anno,
+    capAvg := capacityFor .poolAverage n.alloc n.anno,
     usage := measuredUsage n.sys es ++ [podCount false refs],
     prodUsage := measuredProdUsage [0, 0] refs es ++ [podCount true refs] }
 
@@ -86,7 +88,7 @@ def withMetric (ms : List WireMetric) (p : WirePod) : RawPod :=
 /-- calcAverageResourceUsagePercent for one raw dim. -/
 def avgPct (sel : RawNode → List Int) (d : Nat) (ns : List RawNode) : Float :=
   let s := ns.foldl (fun acc n =>
-    let cap := n.cap.getD d 0
+    let cap := n.capAvg.getD d 0
     if cap = 0 then acc else acc + Float.ofInt ((sel n).getD d 0) / Float.ofInt cap * 100.0) 0.0
   s / Float.ofNat ns.length
 
